@@ -114,10 +114,52 @@ def last_wins(pairs):
     return d
 
 
+def set_opts(opts):
+    """getExNxXXArgs: dict(ex, nx, xx) or None for an argument error"""
+    r = dict(ex=0, nx=False, xx=False)
+    i = 0
+    while i < len(opts):
+        o = opts[i].decode("latin1").lower()
+        if o in ("nx", "xx"):
+            if r["nx"] or r["xx"]:
+                return None
+            r[o] = True
+        elif o == "ex":
+            if i + 1 >= len(opts):
+                return None
+            try:
+                d = int(opts[i + 1].decode())
+            except ValueError:
+                return None
+            if d <= 0:
+                return None
+            r["ex"] = d
+            i += 1
+        else:
+            return None
+        i += 1
+    return r
+
+
 def on_absent(name, a):
     """(reply, content after or None when nothing is written) for a command applied to a key that does not exist.
     content: for KV a hex value, for collections a list in read order."""
     k = a[0] if a else None
+    if name == "set" and len(a) > 2:
+        o = set_opts(a[2:])
+        if o is None:
+            return "-err", None
+        return (":0", None) if o["xx"] else (":1", [hx(a[1])])
+    if name == "setifeq":
+        return (":1", [hx(a[2])]) if a[1] == b"" else (":0", None)
+    if name == "delifeq":
+        return ":0", None
+    if name == "ltrim":
+        return "_", None
+    if name == "lset":
+        return "-err", None
+    if name == "zremrangebyrank":
+        return ":0", None
     if name == "set":
         return ":1", [hx(a[1])]
     if name == "setex":
@@ -168,8 +210,8 @@ def on_absent(name, a):
 
 OVERWRITE = ("set", "getset", "mset")
 MODIFY = ("incr", "incrby", "append", "setrange", "hset", "hsetnx", "hmset", "hdel", "hincrby", "sadd", "srem", "spop",
-          "zadd", "zincrby", "zrem", "zremrangebyscore", "lpush", "rpush", "lpop", "rpop")
-TYPE_OF = dict(set="k", setex="k", setnx="k", getset="k", mset="k", incr="k", incrby="k", append="k", setrange="k",
+          "zadd", "zincrby", "zrem", "zremrangebyscore", "lpush", "rpush", "lpop", "rpop", "ltrim", "lset", "zremrangebyrank")
+TYPE_OF = dict(setifeq="k", delifeq="k", ltrim="l", lset="l", zremrangebyrank="z", set="k", setex="k", setnx="k", getset="k", mset="k", incr="k", incrby="k", append="k", setrange="k",
                expire="k", persist="k", hexpire="h", hpersist="h", hclear="h", hset="h", hsetnx="h", hmset="h",
                hdel="h", hincrby="h", sexpire="s", spersist="s", sclear="s", sadd="s", srem="s", spop="s",
                zexpire="z", zpersist="z", zclear="z", zadd="z", zincrby="z", zrem="z", zremrangebyscore="z",
@@ -337,7 +379,7 @@ def check_write(w, after, policy, now0, fail, bump):
                 sig = SIG_HCLEAR
             if t != "k" and ts != 0 and (t, k, ts) in before.el:
                 sig = SIG_VERSION      # the renewed generation number (= ts) is that of elements stored before
-            if wr is not None and reply != wr and not (name == "setex" and reply == "-err") and not (name.endswith("expire") and reply == "-err"):
+            if wr is not None and reply != wr and not (name in ("setex", "set", "setifeq") and reply == "-err") and not (name.endswith("expire") and reply == "-err"):
                 fail("dead", cid, "a write on an expired key must reply as on an absent key: got %s want %s" % (reply, wr), sig,
                      cmd=name, args=w["hexargs"], ts=ts - now0 * 10**9, expire_at=exp - now0)
             if reply == "-err":
@@ -351,11 +393,11 @@ def check_write(w, after, policy, now0, fail, bump):
                          "(no content of the expired predecessor): content after %s want %s" % (got, wc), sg,
                          cmd=name, args=w["hexargs"], ts=ts - now0 * 10**9, expire_at=exp - now0)
                 # the rewritten key carries no expiry of its predecessor (SETEX sets its own)
-                if name != "setex" and st2 and exp2 != 0:
+                if name not in ("setex", "set", "setifeq") and st2 and exp2 != 0:
                     fail("ttl", cid, "a key re-created over an expired one inherited an expiry", cmd=name, args=w["hexargs"])
             else:
                 # nothing written: the stored (dead) entry is untouched
-                if (st2, exp2, ver2) != (stored, exp, ver):
+                if (st2, exp2, ver2) != (stored, exp, ver) and not (name == "delifeq" and not st2):
                     fail("dead", cid, "a no-op on an expired key changed its stored header", cmd=name, args=w["hexargs"])
             continue
         # ---- the key is live (or absent) at ts
@@ -375,7 +417,32 @@ def check_write(w, after, policy, now0, fail, bump):
                 fail("ttl", cid, "a failed command changed the stored expiry", cmd=name, args=w["hexargs"])
             continue
         when = ts // 10**9
-        if name in OVERWRITE or (name == "setnx" and reply == ":1"):
+        if (name == "set" and len(args) > 2) or name == "setifeq":
+            # SET with options / SETIFEQ on a live key: a refused write changes nothing, an accepted one stores a fresh
+            # header with the expiry it asks for (none without EX)
+            if name == "set":
+                o = set_opts(args[2:])
+                d = o["ex"] if o else 0
+                accepted = o is not None and not o["nx"]
+                want_reply = "-err" if o is None else (":0" if o["nx"] else ":1")
+            else:
+                d = dec(args[4]) if len(args) > 3 else 0
+                accepted = before.content(t, k) == [hx(args[1])]
+                want_reply = ":1" if accepted else ":0"
+            if reply != want_reply:
+                fail("ttl", cid, "%s on a live key: reply %s want %s" % (name, reply, want_reply), cmd=name, args=w["hexargs"])
+            elif not accepted:
+                if (st2, exp2, ver2) != (stored, exp, ver):
+                    fail("ttl", cid, "a refused conditional write changed the stored header", cmd=name, args=w["hexargs"])
+            elif d == 0 and exp2 != 0:
+                fail("ttl", cid, "overwriting the whole value must clear the expiry: ExpireAt %d kept" % exp2, cmd=name, args=w["hexargs"])
+            elif d and 0 < when + d < 2**32 - 2 and exp2 != when + d:
+                fail("ttl", cid, "SET EX stored ExpireAt %d, want %d" % (exp2, when + d), cmd=name, args=w["hexargs"])
+        elif name == "delifeq":
+            same = before.content(t, k) == [hx(args[1])]
+            if reply != (":1" if same else ":0") or st2 != (not same):
+                fail("ttl", cid, "DELIFEQ on a live key: reply %s, value equal %s, stored after %s" % (reply, same, st2), cmd=name, args=w["hexargs"])
+        elif name in OVERWRITE or (name == "setnx" and reply == ":1"):
             if st2 and exp2 != 0:
                 fail("ttl", cid, "overwriting the whole value must clear the expiry: ExpireAt %d kept" % exp2, cmd=name, args=w["hexargs"])
         elif name == "setex":
